@@ -9,7 +9,9 @@
    Locales are the ids of Model/Observer.v; the header line of a locale is the
    structured line [SLocale loc] (the harness maps the printed name back to the
    id; ids are assigned in the order of the names, so `sorted` on names is
-   insertion sort on ids).  An empty locale name (`if locale:`) is outside the
+   insertion sort on ids).  Id 0 is the locale None (a file without locale):
+   it gets no header line (`if locale:`), and `sorted` raises TypeError as soon
+   as it has to compare None with a name.  An empty locale NAME is outside the
    model. *)
 From Coq Require Import ZArith NArith List Bool Arith.
 From CL Require Import Base.Sx Base.Res Base.Str Model.Tree Model.Observer
@@ -93,7 +95,8 @@ Definition locale_block (st : lstate) (loc : N) : result (list sumline) :=
   match rev cols with
   | [] => Raise IndexError
   | lastc :: _ =>
-      Ok (SLocale loc :: map SText (rows cols) ++ [SText (dec (rate_of lastc) ++ rate_suffix)])
+      Ok ((if N.eqb loc 0 then [] else [SLocale loc])
+          ++ map SText (rows cols) ++ [SText (dec (rate_of lastc) ++ rate_suffix)])
   end.
 
 (* sorted(...) on the locale keys of the list's own summary *)
@@ -110,8 +113,14 @@ Fixpoint blocks (st : lstate) (locs : list N) : result (list sumline) :=
   | l :: r => do b <- locale_block st l; do bs <- blocks st r; Ok (b ++ bs)
   end.
 
+(* sorted() compares (locale, list) tuples: None against a str is a TypeError,
+   and with two or more keys every key takes part in a comparison *)
+Definition unsortable (locs : list N) : bool :=
+  existsb (N.eqb 0) locs && Nat.ltb 1 (length locs).
+
 Definition serialize_summaries (st : lstate) : result (list sumline) :=
-  blocks st (sort_locs (map fst (o_summary (l_own st)))).
+  let locs := map fst (o_summary (l_own st)) in
+  if unsortable locs then Raise TypeError else blocks st (sort_locs locs).
 
 (* ---- reading the text back (the statement side of the theorems) ---------- *)
 Fixpoint str_uint (s : str) : option Decimal.uint :=
